@@ -7,7 +7,7 @@
     An uncertain magnitude is an exact first-order affine form (Model/Measure.v); σ is stated
     through the variance [Σ der_i²·σ_i²] (a rational), and as the rational [|d|·σ_i] for forms
     that depend on a single variable (a freshly constructed or converted measurement). *)
-From Coq Require Import Qcabs.
+From Coq Require Import Ascii String Qcabs.
 From PintV Require Import Model.UC Model.Eval Model.Registry Model.Measure Model.UncTok.
 From PintV Require Import Proofs.UCProofs Proofs.MeasureProofs Proofs.UncTokProofs.
 From PintV Require Import Gen.DefaultDefs Gen.DefaultReg.
@@ -236,6 +236,30 @@ Theorem C19_unc_tokens q n ps rest :
   ∃ out, unc_tokenize q (app (place (render_unc n) ps) rest) = (r ←r unc_tokenize q rest; Ok (app out r))
        ∧ map core_of out = expected_cores q n.
 Proof. exact (unc_tokens_spec q n ps rest). Qed.
+
+(** the texts [v ++ e], [u ++ e] denote v·10^e and u·10^e: for every decimal literal
+    (digits.digits, or digits) and every exponent style, [parse_number] — the reading
+    [ParserHelper.eval_token] gives a NUMBER token — of the rewritten text is the value of the
+    literal times 10^e (a zero or nan mantissa is left untouched, which denotes the same) *)
+Theorem C19_unc_token_values ip fp e :
+  exp_ok e = true →
+  (all_digits ip = true → all_digits fp = true → (ip ≠ "" ∨ fp ≠ "") →
+     ∃ qv, parse_number (ip ++ String "."%char fp) = Some qv
+         ∧ parse_number ((ip ++ String "."%char fp) ++ e_text e) = Some (qv * pow10 (e_value e))%Qc)
+  ∧ (nonempty_digits ip = true →
+     ∃ qv, parse_number ip = Some qv
+         ∧ parse_number (ip ++ e_text e) = Some (qv * pow10 (e_value e))%Qc).
+Proof.
+  intros He. split.
+  - intros H1 H2 H3. exact (token_value_dot ip fp e H1 H2 H3 He).
+  - intros H1. exact (token_value_int ip e H1 He).
+Qed.
+(** the uncertainty text of [v(u)] as found: [0.u] is u / 10^(number of digits of u) *)
+Theorem C19_short_prefix_value u :
+  nonempty_digits u = true →
+  parse_number ("0." ++ u)
+  = Some (Q2Qc (inject_Z (digits_value u)) * pow10 (0 - Z.of_nat (String.length u)))%Qc.
+Proof. exact (short_prefix_value u). Qed.
 
 (** F15 (known finding): with the tokenizer as found, the notation as the LAST thing in the
     input raises IndexError ([1.0(1)] and [(1.0 +/- 0.1)] followed by NEWLINE, ENDMARKER), while
